@@ -259,6 +259,7 @@ type loopMods struct {
 	heaps []string
 	all   bool
 	alloc bool
+	events bool
 }
 
 func (fr *Frame) rootOf(v ssa.Value) ssa.Value {
@@ -383,8 +384,8 @@ func (fr *Frame) loopModifies(li *loopInfo) *loopMods {
 						m.cells[c] = true
 					}
 				}
-				if eff.events {
-					m.alloc = true
+				if eff.events || eff.all {
+					m.events = true
 				}
 			}
 		}
@@ -584,6 +585,8 @@ func (fr *Frame) enterLoop(st *State, li *loopInfo) {
 		nt := x.vc.fresh("allocTop", sInt)
 		x.vc.assume(tCmp(">=", nt, st.allocTop))
 		st.allocTop = nt
+	}
+	if mods.events || mods.all {
 		ne := x.vc.fresh("events", sInt)
 		x.vc.assume(tCmp(">=", ne, st.events))
 		st.events = ne
